@@ -13,6 +13,12 @@ CHECKS = {
  "C03": dict(cat="exploration", tech="reference-model monitor in the longdouble matrix domain + history monitor (validity and shadow matrix after every operation of 10^4-step histories)",
    text="Products, inverses, identities, matrix()/accessors, Act on 3- and 4-vectors (w=0, w<0), associativity and action composition are compared with the reference matrix representation built from raw components (blockwise condition-aware tolerances, scales e^+-8, translations 1e+-6, both dtypes, broadcasting); long mixed histories of @, Inv, add_, Retr, + on one element are checked at every quiescent point for validity (|q|-1 <= 4u(n+1), s>0) and against a longdouble shadow matrix.",
    note="Trusted: lie_ref longdouble matrices; accuracy of Exp of an increment is budgeted from the measured distance to the reference (C01 decides it).", ref="DESIGN.md 3 C03"),
+ "C09": dict(cat="exploration", tech="reference-model monitor: mpmath closed forms of the kernels; corrector identities J'^T R' and J'^T J' against reference rho', rho'' on optimizer-shaped inputs; GN/LM driver with spy solver",
+   text="Every kernel vs its documented closed form in mpmath (tolerance relative to the largest intermediate term), finite / zero-at-zero / monotone / Huber continuity / negative input raises; FastTriggs and Triggs called as the optimizer calls them on built-in and user kernels (rho''>0, =0, <0): gradient identity for both, Hessian identity where rho''>0, Triggs == FastTriggs elsewhere; a GN/LM driver checks the right-hand side and the reported loss against the closed forms.",
+   note="Trusted: mpmath closed forms and float64 reference derivatives (self-tested against mpmath.diff each run); rows where |rho''| is below the round-off of the terms autograd sums are allowed the deviation that noise can cause.", ref="DESIGN.md 3 C09"),
+ "C10": dict(cat="exploration", tech="optimality-condition monitor (normal equations, minimum norm on constructed null spaces, backward error, CG stopping rule) + sparse products vs dense product; must-raise oracle for non-PD Cholesky",
+   text="PINV / LSTSQ / Cholesky / CG on matrices constructed with exact rank deficiency and prescribed condition number (sizes 1..40, batches, kappa <= 1e8 direct, <= 1e3 CG, dense/CSR/COO/BSR operands, initial guess, preconditioners): least-squares optimality, minimum norm (PINV), backward error, |b-Ax| <= tol|b|, zero for b=0; Cholesky on matrices with lambda_min <= -0.1|A| must raise (currently the known finding F09); all 16 sparse layout pairs: returned products equal the dense product, unsupported pairs must raise (listed in the evidence).",
+   note="Trusted: constructed factors (exact null spaces); singular PSD matrices are not judged for Cholesky; min-norm judged for PINV only.", ref="DESIGN.md 3 C10"),
  "C11": dict(cat="exploration", tech="reference-model monitor: conversions vs longdouble reference matrices; constructed inputs for every branch region; accept/reject oracle for check=True",
    text="mat2SO3/SE3/Sim3/RxSO3 and from_matrix on reference-built matrices (3x3/3x4/4x4, all four extraction branches incl. exactly pi about the axes and pi+-1e-12..1e-3, scales 1e-3..1e3, batch rank up to 3, both dtypes) must reproduce matrix, unit quaternion and scale; euler2SO3 = RzRyRx and the Euler round trip outside the gimbal band with principal ranges; check=True must raise for defects >= 10x tolerance and never for <= 0.1x.",
    note="Trusted: lie_ref; expected scale = longdouble cube root of the determinant of the matrix actually passed; gimbal band not judged.", ref="DESIGN.md 3 C11"),
